@@ -16,6 +16,13 @@ does the request succeed); a failing request throws `std::bad_alloc` in the code
 reports as status `badAlloc`.  The definitions without suffix transcribe the code WITH the
 repairs patches/C07-01 (growth size that wraps is refused) and C07-02 (clone allocates before it
 releases); the `…AsFound` definitions transcribe the code as found and carry the counterexamples.
+
+Round 3: `appendFrom` (source of `append` inside ANOTHER buffer's block), `fetchSelf` / `fetchIntoRaw`
+(destination of `fetch` inside the own block: overlap hazard of the `memcpy` explicit), synthetic payloads
+(`pattern`) and digests (`fnv`) for large histories.  Composite statement sequences (`Buffer c(b); b = c;`)
+are `runUntilThrow` / `runScript` in Spec.lean: one allocator answer per statement, so every allocation
+inside one composite operation can fail on its own.  `Fast.lean` is the same model over `ByteArray`
+(`C07_array_refines`: equal to this one).
 -/
 namespace Tbox.C07
 
@@ -217,6 +224,19 @@ def appendSelfRaw (al : Alloc) (b : Buf) (off k : Nat) : Res × Hazard :=
     let (b2, a2) := e.buf.userWrite data
     ({ e with buf := b2.hasWritten k, acc := e.acc ++ [⟨e.buf.size, src, k⟩] ++ a2, ret := k }, hz)
 
+/-! #### `fetch` whose destination lies in the buffer's OWN storage -/
+
+/-- `b.fetch(buffer_ptr_ + dst, n)`: the `memcpy` copies `min(n, readableSize())` bytes from
+`[read_index_, …)` to `[dst, …)` of the same block, then `hasRead`.  `overlap` = the two ranges of the
+`memcpy` intersect (undefined behaviour; a `memmove` would be needed).  Returns the bytes found at the
+destination afterwards (what the caller reads there). -/
+def fetchIntoRaw (b : Buf) (dst n : Nat) : Res × List Byte × Hazard :=
+  let k := if n > b.readableSize then b.readableSize else n
+  let data := b.readable.take k
+  let hz := if k ≠ 0 ∧ b.r < dst + k ∧ dst < b.r + k then Hazard.overlap else Hazard.none
+  ({ buf := ({ b with mem := poke b.mem dst data } : Buf).hasRead k,
+     acc := [⟨b.size, b.r, k⟩, ⟨b.size, dst, k⟩], ret := k }, data, hz)
+
 end Buf
 
 /-! ### a store of named buffers and the operation language of the harness -/
@@ -226,6 +246,8 @@ inductive Op where
   | defaultCtor (i : Nat)                     -- (re)construct slot i as Buffer()  (kInitialSize)
   | append (i : Nat) (d : List Byte)
   | appendSelf (i : Nat) (off k : Nat)        -- ensure k; append(readableBegin()+off, k)  (if off+k ≤ readable)
+  | appendFrom (i j : Nat) (off k : Nat)      -- b_i.append(b_j.readableBegin()+off, k): source inside ANOTHER buffer's block
+  | fetchSelf (i : Nat) (n : Nat)             -- ensure min(n, readable); fetch(writableBegin(), n): destination in the own block
   | reserve (i : Nat) (n : Nat)
   | rwc (i : Nat) (n : Nat) (d : List Byte)   -- ensure n; write d (|d| ≤ n); hasWritten |d|
   | over (i : Nat) (n : Nat)                  -- zero-fill writable region; hasWritten (max writable n): clamps
@@ -281,6 +303,21 @@ def step (al : Alloc) (s : Store) : Op → Store × Out
           (s.put i x.buf, { Out.ofRes x with accesses := e.acc ++ x.acc, news := e.news + x.news, dels := e.dels + x.dels })
         else (s, Out.ofRes { e with buf := b })
       else (s, {})
+  | .appendFrom i j off k =>
+      let o := s.get j
+      if i = j ∨ off + k > o.readableSize then (s, {}) else
+      -- the source block belongs to another buffer: whatever `ensureWritableSize` does to b_i leaves it alone
+      let x := (s.get i).append al ((o.readable.drop off).take k)
+      (s.put i x.buf, { Out.ofRes x with accesses := if x.st = .ok then ⟨o.size, uadd o.r off, k⟩ :: x.acc else x.acc })
+  | .fetchSelf i n =>
+      let b := s.get i
+      let k := if n > b.readableSize then b.readableSize else n
+      -- the caller makes room for the bytes first, then hands `writableBegin()` to `fetch`
+      let e := b.ensure al k
+      if e.st = .ok then
+        let (x, out, _) := e.buf.fetchIntoRaw e.buf.w n
+        (s.put i x.buf, { fetched := out, ret := out.length, accesses := e.acc ++ x.acc, news := e.news, dels := e.dels })
+      else (s, Out.ofRes { e with buf := b })
   | .reserve i n =>
       let x := (s.get i).ensure al n
       (s.put i x.buf, { Out.ofRes x with ret := if x.st = .ok then 1 else 0 })
@@ -320,6 +357,18 @@ def step (al : Alloc) (s : Store) : Op → Store × Out
       let bj := s.get j
       ((s.put i bj).put j bi, {})
   | .reset i => (s.put i Buf.empty, { dels := (s.get i).owns })
+
+/-! ### synthetic payloads and digests (large histories: the op file names a payload by length and
+seed, both sides print a digest instead of the bytes) -/
+
+/-- byte `idx` of the payload with seed `seed` (harness: `(uint8_t)(seed*131 + idx*7 + idx/256)`) -/
+def patByte (seed idx : Nat) : Byte := UInt8.ofNat (seed * 131 + idx * 7 + idx / 256)
+/-- the payload `%n:seed` -/
+def pattern (seed n : Nat) : List Byte := (List.range n).map (patByte seed)
+
+/-- FNV-1a, 64 bit -/
+def fnvStep (h : UInt64) (b : Byte) : UInt64 := (h ^^^ b.toUInt64) * 1099511628211
+def fnv (bs : List Byte) : UInt64 := bs.foldl fnvStep 14695981039346656037
 
 /-- number of buffer slots used by the harness -/
 def nSlots : Nat := 4
